@@ -28,16 +28,83 @@ LEVEL_TEXT = ("Every recorded recur step and tick of each generated run is compa
               "thousands of forests and yield scripts per run. Held on the executions observed; no claim beyond the bounds "
               "(<= 8 leaves, depth <= 3, <= ~150 cycles).")
 LEVEL_NOTE = "trusted: the reference model in vf/models/cycle.py (its reading of 'runs again in the next cycle'), CPython float semantics"
-ASSUMPTIONS = ["static doer sets (extend/remove are C06)", "non-real-time mode",
+ASSUMPTIONS = ["static doer sets (extend/remove are C06), except one family that removes running siblings once and judges only the within-cycle order and completeness of the survivors", "non-real-time mode",
                "non-dyadic cases closer than 1e-9 to a scheduling tie are skipped as ambiguous and counted"]
 NSHARDS = {"quick": 8, "thorough": 16}
-REQUIRE = {"recur_steps_compared": 5000, "ticks_checked": 2000, "nested_cases": 100, "nondyadic_judged": 50,
+REQUIRE = {"removal_order_cases": 150, "cycles_order_checked_around_removal": 800, "recur_steps_compared": 5000, "ticks_checked": 2000, "nested_cases": 100, "nondyadic_judged": 50,
            "positive_tock_steps": 500}
+
+
+def removal_case(rng):
+    """Every-cycle doers (yield 0/None for ever) under the Doist or under one tock-0 DoDoer; one of them removes a set of
+    running siblings at step k.  Decided without a model: from then on every cycle runs exactly the survivors, once each,
+    in enter order (the removal cycle itself: the survivors that had not run yet)."""
+    prog = gen_sched.gen_prog(rng, dyadic=True, nmax=7, depth=0, group_p=0.0, leaf_kw={"forever_p": 1.0})
+    leaves = list(gen_sched.leaves_of(prog["doers"]))
+    while len(leaves) < 4:
+        return None
+    for lf in leaves:
+        lf["enter"], lf["end"], lf["ys"] = "ok", None, [rng.choice([0.0, None])]
+        lf.pop("acts", None)
+    ctl = rng.choice(leaves)
+    others = [lf["id"] for lf in leaves if lf is not ctl]
+    victims = rng.sample(others, rng.randint(1, len(others) - 1))
+    k = rng.randint(1, 4)
+    sid = "doist"
+    if rng.random() < 0.5:
+        sid = "G90"
+        prog["doers"] = [{"id": "G90", "kind": "dodoer", "tock": 0.0, "always": False, "doers": prog["doers"]}]
+    ctl["acts"] = {str(k): [["remove", sid, victims, False]]}
+    prog["limit"] = prog["tock"] * (k + rng.randint(3, 6))
+    prog["pool"] = []
+    return {"prog": prog, "kind": "order-after-removal", "order": [lf["id"] for lf in leaves], "victims": victims,
+            "ctl": ctl["id"], "sched": sid}
+
+
+def run_removal(case, ctx):
+    prog = case["prog"]
+    run = sched.execute(prog, max_cycles=sched.cycle_budget(prog))
+    tr = sched.compact(run, 160)
+    if run.result[0] != "return":
+        ctx.violation("run-did-not-return:" + str(run.result[1]), f"{run.result}", trace=tr)
+        return
+    order, victims = case["order"], set(case["victims"])
+    survivors = [i for i in order if i not in victims]
+    cycles, removed_at = [], None
+    for kind, did, t, info in run.trace:
+        if kind == "cycle":
+            cycles.append([])
+        elif kind == "recur" and did in order and cycles:
+            cycles[-1].append(did)
+        elif kind == "rem-ret" and removed_at is None:
+            removed_at = len(cycles) - 1
+    if removed_at is None:
+        ctx.harness_error("removal never happened")
+        return
+    ctx.count("removal_order_cases")
+    for ci, ran in enumerate(cycles):
+        if ci < removed_at:
+            want = order
+        elif ci == removed_at:
+            pos = order.index(case["ctl"])
+            want = order[:pos + 1] + [i for i in order[pos + 1:] if i not in victims]
+        else:
+            want = survivors
+        ctx.count("cycles_order_checked_around_removal")
+        if ran != want:
+            ctx.violation("order-after-removal:" + ("removal-cycle" if ci == removed_at else "later-cycle" if ci > removed_at else "before"),
+                          f"scheduler {case['sched']}: enter order {order}, {case['ctl']} removed {sorted(victims)} in cycle "
+                          f"{removed_at + 1}; cycle {ci + 1} ran {ran}, expected {want}", trace=tr)
+            return
 
 
 def cases(tier, seed, shard, nshards):
     rng = random.Random(f"{seed}:C03:{shard}")
     n = (3200 if tier == "quick" else 100000) // nshards
+    for _ in range(n // 8):
+        c = removal_case(rng)
+        if c:
+            yield c
     for i in range(n):
         dyadic = rng.random() < 0.8
         prog = gen_sched.gen_prog(rng, dyadic=dyadic, nmax=8, depth=3,
@@ -84,6 +151,8 @@ def compare(run, model, dyadic):
 
 
 def run_case(case, ctx):
+    if case.get("kind") == "order-after-removal":
+        return run_removal(case, ctx)
     prog = case["prog"]
     dyadic = prog.get("dyadic", True)
     try:
